@@ -5,7 +5,9 @@ PID = "C01"
 
 
 def run(v):
-    n, steps = (92, 40) if v.tier == "quick" else (400, 45)
+    # thorough: the enumerated error-exit / kill windows of the checkpoint protocol (harness -sweep: about 700
+    # scripted histories) come first, then the random histories
+    n, steps = (92, 40) if v.tier == "quick" else (1150, 45)
     D.run_db(v, PID, "c01", n, steps,
              "random histories over {app write/update/delete(+incremental vacuum)/VACUUM/DDL/rollback, app checkpoint in 4 modes, "
              "app connection close/open, long reader on/off, Sync, single verify+sync step, Replica.Sync, Checkpoint(mode), "
@@ -13,7 +15,8 @@ def run(v):
              "CheckpointInterval, MaxSyncWALBytes); at every acknowledged instant (SyncAndWait/Close returned nil) the replica is "
              "restored with a full integrity check and compared page by page with the image SQLite itself computes from a copy of "
              "(db, -wal) (only litestream's seq row page and the page-1 change counters may differ); every single verify+sync step "
-             "is also compared with the Coq model. distinct = distinct (config, op sequence); non-trivial = at least one acknowledged instant.")
+             "is also compared with the Coq model. distinct = distinct (config, op sequence); non-trivial = at least one acknowledged instant.",
+             extra_args=(() if v.tier == "quick" else ("-sweep",)))
 
 
 def replay(v, path):
